@@ -495,6 +495,23 @@ func (e *enc) loopEnv(h *ssa.BasicBlock, phiOverride map[*ssa.Phi]Val) *Env {
 		if name == "" {
 			name = phi.Name()
 		}
+		// name$pre: the variable's value when the loop was entered (the phi's edge from outside the loop)
+		if li := e.loops[h]; li != nil {
+			var pre ssa.Value
+			nOut := 0
+			for i, pr := range h.Preds {
+				if !li.blocks[pr] && i < len(phi.Edges) {
+					pre = phi.Edges[i]
+					nOut++
+				}
+			}
+			if nOut == 1 {
+				_, isConst := pre.(*ssa.Const)
+				if _, bound := e.vals[pre]; bound || isConst {
+					vars[name+"$pre"] = e.val(pre)
+				}
+			}
+		}
 		if ov, ok := phiOverride[phi]; ok {
 			vars[name] = ov
 			vars[phi.Name()] = ov
